@@ -57,6 +57,29 @@ def ref_text_length(s):
         i += 1
     return n if depth == 0 else UI
 
+def ref_format_name(names, n, fmt):
+    """format.name$ from the documentation (BibTeX's name-formatting rules as re-implemented, independently of
+    pybtex/bibtex/names.py, by the C11 oracle: level-1 letters f/ff v/vv l/ll j/jj, abbreviation, the tie after a short
+    first token and before the last token, a discretionary "~" at the end of a part (tie if the part has < 3 text
+    characters, else a space), a forced "~~").  Splitting the list and the name into its four parts is C12's / C04's."""
+    if not (known(names) and known(n) and known(fmt)):
+        return US
+    if any(not (32 <= ord(c) < 127) for c in names + fmt) or names.count(',') > 2 * (names.lower().count(' and ') + 1):
+        return US
+    try:
+        from props import c11
+        from pybtex.bibtex.utils import split_name_list
+        l = split_name_list(names)
+        if not 1 <= n <= len(l):
+            return US            # a BibTeX error is due; the caller sets `opaque`
+        cls = c11.classify_format(fmt)
+        if cls[0] != 'ok' or c11.max_depth(l[n - 1]) > 50 or c11.max_depth(fmt) > 50:
+            return US
+        want = c11.spec_format(cls[1], c11._person_parts(l[n - 1]))
+    except Exception:
+        return US
+    return US if want is None else want
+
 class Ref(object):
     def __init__(self):
         self.vars = {'global.max$': ['int', UI], 'entry.max$': ['int', UI]}
@@ -151,7 +174,9 @@ class Ref(object):
         elif b == 'width$':
             self.pop(is_str); self.opaque = True; st.append(UI)
         elif b == 'format.name$':
-            self.pop(is_str); self.pop(is_int); self.pop(is_str); self.opaque = True; st.append(US)
+            fmt = self.pop(is_str); n = self.pop(is_int); names = self.pop(is_str)
+            self.opaque = True        # may legitimately be a BibTeX error (malformed format, nesting too deep)
+            st.append(ref_format_name(names, n, fmt))
         elif b == 'chr.to.int$':
             s = self.pop(is_str)
             if not known(s): st.append(UI)
